@@ -51,7 +51,7 @@ def parseOps (s : String) : List Spec.Op :=
     else if head == "esc" ∨ head == "so" ∨ head == "bs" then [.other]
     else
       (op.splitOn "+").map fun sub =>
-        let sub := if sub.endsWith "c" then (sub.dropEnd 1).toString else sub
+        let sub := if sub.endsWith "c" || sub.endsWith "k" then (sub.dropEnd 1).toString else sub
         let kv := sub.splitOn ":"
         let v := (kv.getD 1 "0")
         match kv.headD "" with
